@@ -215,6 +215,7 @@ class C01(Prop):
         "PylifeVerif.C01.newTurns_chunk_independent",
         "PylifeVerif.C01.fourPoint_chunk_independent",
         "PylifeVerif.C01.fkm_chunk_independent",
+        "PylifeVerif.C01.threePoint_chunk_independent",
         "PylifeVerif.C01.chunkLocalIndex_correct",
     ]
     PARTIAL = {}
@@ -340,6 +341,8 @@ class C02(Prop):
         "PylifeVerif.C02.fourPoint_eq_spec",
         "PylifeVerif.C02.fourPoint_partition",
         "PylifeVerif.C02.fourPoint_index_valid",
+        "PylifeVerif.C02.threePoint_same_cycles",
+        "PylifeVerif.ThreePoint.tpRun_eq_fpRun",
         "PylifeVerif.C02.fkm_eq_spec",
         "PylifeVerif.C02.fkm_partition",
     ]
@@ -475,6 +478,8 @@ class C03(Prop):
         "PylifeVerif.C03.findTurns_affine",
         "PylifeVerif.C03.fourPoint_affine",
         "PylifeVerif.C03.fkm_neg",
+        "PylifeVerif.C03.threePoint_neg",
+        "PylifeVerif.C03.threePoint_affine",
         "PylifeVerif.C03.findTurns_insert_nonreversal",
         "PylifeVerif.C03.findTurnsNan_reindex",
         "PylifeVerif.C03.findTurnsNan_index_valid",
